@@ -20,7 +20,8 @@ def u16(b, i):
 
 def bit(b, i, k):
     """bit k (LSB = 0) of byte b[i] as a bool"""
-    return (b[i] // (1 << k)) % 2 == 1
+    from engine.hlib import bit_of
+    return bit_of(b[i], k)
 
 
 def F():
@@ -43,6 +44,10 @@ class Spec(object):
     def wf_enc(self, b, shape):
         """extra conditions for the encode direction (fields the constructor cannot express)"""
         return []
+
+    def get_inputs(self, m, shape):
+        """the fields a caller sets (what encode() must leave alone); default: all fields"""
+        return self.get(m, shape)
 
     def cls(self):
         return getattr(F(), self.name)
@@ -508,6 +513,11 @@ class DevInfoResponse(Spec):
         m = self.cls()(f["read_code"], dict(f["information"]))
         m.conformity = f["conformity"]
         return m
+
+    def get_inputs(self, m, sh):
+        # more_follows / next_object_id / number_of_objects are outputs computed by encode() (paging), not inputs
+        return {"read_code": m.read_code, "conformity": m.conformity,
+                "information": sorted((k, v) for k, v in m.information.items())}
 
     def get(self, m, sh):
         return {"read_code": m.read_code, "conformity": m.conformity, "more_follows": m.more_follows,
